@@ -103,6 +103,23 @@ func TestVerifC12b(t *testing.T) {
 		if _, err := svc.ActivateGroup(ctx, &protocoltypes.ActivateGroup_Request{GroupPk: inv.PublicKey}); err != nil {
 			rep.Violation("C12/joined-group-cannot-be-activated", fmt.Sprintf("group %s: %v", label, err), c12Case{label, "activate"})
 		}
+		// with the group joined and open, the altered invitations for it are still refused (type, secret and
+		// signature alterations keep the identifier: the service must not answer from what it already holds)
+		reaccepted := 0
+		for _, m := range muts {
+			if !bytes.Equal(m.g.PublicKey, inv.PublicKey) {
+				continue
+			}
+			_, jerr := svc.MultiMemberGroupJoin(ctx, &protocoltypes.MultiMemberGroupJoin_Request{Group: m.g})
+			rep.AddTransitions(1)
+			rep.Eval(fmt.Sprintf("service-open-group/%s/refused=%v", m.name, jerr != nil))
+			if jerr == nil {
+				reaccepted++
+				if reaccepted == 1 {
+					rep.Violation("C12/altered-invitation-accepted/"+m.name, fmt.Sprintf("invitation %s with mutation '%s' is answered with success by MultiMemberGroupJoin once the group is joined and open", label, m.name), c12Case{label, m.name + " (group open)"})
+				}
+			}
+		}
 		rep.AddStates(1)
 		rep.Sample(map[string]interface{}{"part": "service", "invitation": label, "mutations": len(muts)})
 	}
